@@ -523,7 +523,7 @@ WANT = [None]     # set of property ids whose obligations are discharged (None =
 
 
 def _get_ctx(h):
-    key = (h.opts.get("abstract_nl", False), h.opts.get("timeout_ms", 20000), h.opts.get("max_decisions", 3000))
+    key = (h.opts.get("abstract_nl", False), h.opts.get("timeout_ms", 30000), h.opts.get("max_decisions", 3000))
     c = _WCTX.get(key)
     if c is None:
         c = Ctx(timeout_ms=key[1], abstract_nl=key[0], max_decisions=key[2])
@@ -734,7 +734,7 @@ def explore_many(jobs, nproc=None, chunk_paths=60, chunk_s=20.0, validate=True, 
     tid = 0
     strikes = {}
     inflight = 0
-    hard_limit = chunk_s * 3 + 60
+    hard_limit = chunk_s * 3 + 240
     try:
         while queue or inflight:
             for i in pool.idle():
